@@ -176,29 +176,29 @@ PROPS['C01'] = dict(layers=[D(P.p_c01, P.p_c06_toolong, profile=dict(faults=0.4,
                     refines=[(r'^(Y write [23]\d\d\d |O dev \d+ to |O dev \d+ queue)', 'the actions queued or the plugs addressed on the wire are not what the request prescribes for this input (C01_appends, C01_wire_*)')], planned=['C01_validated (alias expansion)', 'C01_history_free at daemon level'])
 PROPS['C02'] = dict(layers=[D(P.p_c02_c03, P.p_c02_retry, P.p_c02_wire, profile=dict(faults=0.5))], planned=['end-to-end 309 <node> line for an unsuccessful setresult (needs a history of what was sent)', 'CLI exit composed with C16_cli_exit', 'queue-wide Interp.Inv along daemon runs (assumed in C02_completion_is_reference_done)'])
 PROPS['C03'] = dict(refines=[(r'^O RXMISMATCH', 'what is captured for the nodes of a query is not what its script defines: ' + 'the real interpreter evaluates another pattern than the script prescribes at this point of this input (C08_refines, C03_lists_justified)'), (r'^A \d+ ', 'the per-node states recorded for a query are not what the device answers give under its script (C08_setplugstate_writes, C03_lists_justified)')], layers=[D(P.p_c02_c03, P.p_c03_justified, profile=dict(faults=0.5))], planned=['which expect of which action filled the match register at the time of a write (a second ghost history); C03_stale_match_counterexample shows the register survives action boundaries', 'this device was never connected during the run => no write for its nodes (only the per-iteration lemma is proved)'])
-PROPS['C04'] = dict(layers=[D(P.p_c04, P.p_c04_quit, P.p_c04_deadline, P.p_c04_xpoll, P.p_c15, profile=dict(hup=0.04)),
+PROPS['C04'] = dict(refines=[(r'^(C \d+ |Y close 1\d\d\d|Y write 1\d\d\d )', 'the sessions and what they are sent are not what the requests so far prescribe: a session with a command in progress was destroyed, kept or answered against C04_one_reply_per_line / C04_completion_reply / C11_departure')], layers=[D(P.p_c04, P.p_c04_quit, P.p_c04_deadline, P.p_c04_xpoll, P.p_c15, profile=dict(hup=0.04)),
                           # long-lived sessions: thousands of request lines on one connection (the input ring wraps many times)
                           D(P.p_c04, P.p_c04_quit, P.p_c15, profile=dict(faults=0.1, quit=0.003, maxclients=3, calm=0.05), quick=(8, 2500), thorough=(128, 6000))], planned=['C04_one_reply', 'C04_no_wedge', 'C04_tenure', 'C04_bound_partial'])
 PROPS['C06'] = dict(layers=[D(P.p_c04, P.p_c15, P.p_c06_served, P.p_f23, profile=dict(fatal=0.03, faults=1.5, maxclients=6), deaths=client_deaths), D(P.p_c04, P.p_c15, P.p_c06_toolong, profile=dict(fatal=0.02, faults=0.1, quit=0.003, maxclients=3, calm=0.05, longline=0.003), deaths=client_deaths, quick=(8, 2500), thorough=(128, 6000))], planned=['C06_total over lines >= CP_LINEMAX (203)', 'C06_reap'])
-PROPS['C07'] = dict(layers=[D(P.p_c20, profile=dict(garbage=0.08, pF6=0.03, calm=0.25, flood=0.004, storm=0.004), deaths=device_deaths)], planned=['C07_no_abort assembled over whole runs'])
+PROPS['C07'] = dict(layers=[D(P.p_c20, profile=dict(garbage=0.08, pF6=0.03, calm=0.25, flood=0.004, storm=0.004, exactfit=0.03), deaths=device_deaths)], planned=['C07_no_abort assembled over whole runs'])
 WIRE = r'^(Y write [23]\d\d\d |O dev \d+ to )'
 # the regex oracle: the model replays the real regexec answers and must ask the same question; "RXMISMATCH" = the real interpreter
 # evaluated another expect / pattern than the script's program has at this point of this input
 RXQ = (r'^O RXMISMATCH', 'the real interpreter evaluates another pattern than the script prescribes at this point of this input (the model, proved equal to the reference program by C08_refines, asks a different question of the regex oracle)')
 PROPS['C08'] = dict(layers=[D(P.p_c08, P.p_c01, profile=dict(faults=0.5, storm=0.003))],
                     refines=[(WIRE, 'the bytes sent to a device are not what the script prescribes for this input (reference semantics: C08_refines, C08_sends_are_script)'), RXQ], planned=['composition of the refinement over postPoll sequences with reconnects'])
-PROPS['C09'] = dict(layers=[D(P.p_c09_write, P.p_c09_read, P.p_c04_quit, profile=dict(garbage=0.05, flood=0.004, longline=0.001, storm=0.004)), cbuflayer.CbufLayer(), seriallayer.SerialLayer()], planned=['the daemon model (Dev2/Daemon) still carries its buffers as byte lists with the size rule; it is tied to the ring model (Pm/CbufRing) through the shared size rule growTo and the refinement theorems C09_ring_*, not by substitution'])
+PROPS['C09'] = dict(layers=[D(P.p_c09_write, P.p_c09_read, P.p_c04_quit, profile=dict(garbage=0.05, flood=0.004, longline=0.001, storm=0.004, burst=0.005, exactfit=0.03)), cbuflayer.CbufLayer(), seriallayer.SerialLayer()], planned=['the daemon model (Dev2/Daemon) still carries its buffers as byte lists with the size rule; it is tied to the ring model (Pm/CbufRing) through the shared size rule growTo and the refinement theorems C09_ring_*, not by substitution'])
 PROPS['C10'] = dict(layers=[D(P.p_c10, profile=dict(storm=0.003))], planned=['C10_head_only', 'C10_transcript', 'C10_fifo'])
-PROPS['C12'] = dict(refines=[(r'^O RXMISMATCH', 'after the failure the pending action is not executed again as its script prescribes from the first statement on: the real interpreter evaluates another pattern than the reference program at this point of this input (C12_restart, C12_rewind_initial, C08_refines)'), (r'^(Y write [23]\d\d\d |O dev \d+ to )', 'what is sent to the device after a failure is not what the pending scripts prescribe when executed again from their first statement (C12_restart, C12_rewind_initial: the rewound action abstracts to its whole script)')], layers=[D(P.p_c12, P.p_c12_disconnect, P.p_c04, P.p_c02_c03, profile=dict(pF6=0.02, calm=0.3))], planned=['C12_ioerr', 'C12_recover_partial'])
+PROPS['C12'] = dict(refines=[(r'^O RXMISMATCH', 'after the failure the pending action is not executed again as its script prescribes from the first statement on: the real interpreter evaluates another pattern than the reference program at this point of this input (C12_restart, C12_rewind_initial, C08_refines)'), (r'^(Y write [23]\d\d\d |O dev \d+ to )', 'what is sent to the device after a failure is not what the pending scripts prescribe when executed again from their first statement (C12_restart, C12_rewind_initial: the rewound action abstracts to its whole script)'), (r'^(O dev \d+ conn|Y socket|Y connect)', 'the connection attempts are not those the back-off schedule and the connection layer prescribe for this input (C12_no_attempt_within_backoff, C12_backoff_one_second, C12_ioerr)')], layers=[D(P.p_c12, P.p_c12_disconnect, P.p_c04, P.p_c02_c03, profile=dict(pF6=0.02, calm=0.3, dead=0.004))], planned=['C12_ioerr', 'C12_recover_partial'])
 PROPS['C13'] = dict(layers=[config.ConfigLayer()], planned=['C13_listings at daemon level (nodes / device replies) — the replies themselves are mirrored in Pm.Daemon and compared on every run'])
 PROPS['C14'] = dict(layers=[hostlist.HostlistLayer()], planned=['C14_roundtrip', 'C14_sort_perm', 'C14_three_hops'])
 PROPS['C18'] = dict(layers=[lexlayer.LexLayer(), config.ConfigLayer(prop='C18')], planned=['the flex/bison automata, malloc and regcomp are not modelled: their memory safety on arbitrary input is observed under ASan/UBSan by the whole-file fuzz of this layer, not proved'])
 PROPS['C19'] = dict(layers=[redfish.RedfishLayer()], planned=['C19_bad_input (setplugs argument checks, malformed ranges) on a model of the command parser'])
 PROPS['C20'] = dict(layers=[D(P.p_c20, profile=dict(pF6=0.02, maxclients=6), leaks=True, deaths=shutdown_deaths)], planned=['C20_refcount', 'C20_objects', 'C20_shutdown (signal path / teardown not modelled yet)'])
-PROPS['C15'] = dict(layers=[D(P.p_c15, P.p_c04, P.p_c04_quit, profile=dict(garbage=0.06, maxclients=6))], planned=['client output beyond the 1 MiB buffer: the model never drops client output (the property carries that proviso; cbuf_write overwrites the oldest unsent bytes in C)', 'configuration strings with CR/LF escapes are outside `Good` (as coded: observation)'])
+PROPS['C15'] = dict(layers=[D(P.p_c15, P.p_c04, P.p_c04_quit, profile=dict(garbage=0.06, maxclients=6, burst=0.01))], planned=['client output beyond the 1 MiB buffer: the model never drops client output (the property carries that proviso; cbuf_write overwrites the oldest unsent bytes in C)', 'configuration strings with CR/LF escapes are outside `Good` (as coded: observation)'])
 PROPS['C16'] = dict(layers=[libpm.LibPmLayer()], planned=['memory safety of the remaining C is observed under ASan, not proved'])
 PROPS['C17'] = dict(layers=[speclayer.SpecLayer(), D(P.p_c08, P.p_c17_sends, profile=dict(faults=0.5))], planned=['the flat reference program has no contexts: soundness is stated over the ExecCtx machine (Reach) and tied to it by C08_pass_is_run'])
-PROPS['C11'] = dict(refines=[(r'^(C \d+ |A \d+ |Y write 1\d\d\d )', "a client's record, result cells or output are not what its own request and its own actions determine (C11_routing, C11_result_scope)")], layers=[D(P.p_c11, P.p_c11_events, P.p_c11_tele, P.p_f23, profile=dict(maxclients=6))], planned=['C11_backpressure with the EAGAIN variant while the stuck client keeps sending', 'id wrap (F17) is outside the unbounded-Nat model'])
+PROPS['C11'] = dict(refines=[(r'^(C \d+ |A \d+ |Y write 1\d\d\d )', "a client's record, result cells or output are not what its own request and its own actions determine (C11_routing, C11_result_scope)")], layers=[D(P.p_c11, P.p_c11_events, P.p_c11_tele, P.p_f23, profile=dict(maxclients=6, burst=0.005))], planned=['C11_backpressure with the EAGAIN variant while the stuck client keeps sending', 'id wrap (F17) is outside the unbounded-Nat model'])
 
 
 def all_layers():
